@@ -322,11 +322,17 @@ AtomicMove<SlotType, BUFFER_SIZE> {
                 match self.dequeuer_head.compare_exchange_weak(slot_id.overflowing_add(1).0, slot_id, Relaxed, Relaxed) {
                     Ok(_) => {
                         if !report_empty_fn() {
-                            return None;
-                        } else {
-                            vp!("am.c.fetch");
-                            slot_id = self.dequeuer_head.fetch_add(1, Relaxed);
+                            // our claim was beyond `tail`, but elements published meanwhile may be sitting behind claims that other
+                            // consumers are about to give back: "empty" may only be reported if nothing published awaits release
+                            let head = self.head.load(Relaxed);
+                            let tail = self.tail.load(Relaxed);
+                            if head == tail {
+                                return None;
+                            }
                         }
+                        // claim again
+                        vp!("am.c.fetch");
+                        slot_id = self.dequeuer_head.fetch_add(1, Relaxed);
                     },
                     Err(_reloaded_dequeuer_head) => {
                         relaxed_wait();
